@@ -664,7 +664,7 @@ func ruleC14(p *Program, r *Run) {
 	}
 	for _, fn := range ef.fns {
 		r.Saw(ef.fnName(fn))
-		isInit := fn.Synthetic == "package initializer"
+		isInit := isPkgInit(fn)
 		for _, b := range fn.Blocks {
 			for _, ins := range b.Instrs {
 				switch x := ins.(type) {
@@ -782,7 +782,7 @@ func (ef *effects) insideOnceInit(fn *ssa.Function, globals []*ssa.Global) bool 
 // checkOnce: every read of a Once-protected global's fields is dominated by the Do call.
 func (ef *effects) checkOnce(r *Run, pos func(ssa.Instruction) string) {
 	for _, fn := range ef.fns {
-		if fn.Synthetic == "package initializer" {
+		if isPkgInit(fn) {
 			continue
 		}
 		var doCalls []*ssa.Call
@@ -870,7 +870,7 @@ func (ef *effects) checkCall(r *Run, fn *ssa.Function, call ssa.CallInstruction,
 		b := com.Value.(*ssa.Builtin)
 		switch b.Name() {
 		case "append", "copy", "delete", "clear":
-			if fn.Synthetic == "package initializer" {
+			if isPkgInit(fn) {
 				return
 			}
 			// these write through their first argument
@@ -894,8 +894,8 @@ func (ef *effects) checkCall(r *Run, fn *ssa.Function, call ssa.CallInstruction,
 		}
 		return
 	}
-	if fn.Synthetic == "package initializer" {
-		if callee := com.StaticCallee(); callee != nil && callee.Synthetic == "package initializer" {
+	if isPkgInit(fn) {
+		if callee := com.StaticCallee(); callee != nil && isPkgInit(callee) {
 			return
 		}
 	}
@@ -1261,7 +1261,7 @@ func (ef *effects) checkGlobalsTable(r *Run) {
 						var rs []ssa.Value
 						ef.roots(addr, map[ssa.Value]bool{}, &rs)
 						for _, root := range rs {
-							if root == ssa.Value(g) && fn.Synthetic != "package initializer" && !ef.insideOnceInit(fn, []*ssa.Global{g}) {
+							if root == ssa.Value(g) && !isPkgInit(fn) && !ef.insideOnceInit(fn, []*ssa.Global{g}) {
 								writers[ef.fnName(fn)] = true
 							}
 						}
@@ -1326,4 +1326,16 @@ func (ef *effects) checkSortedKeys(r *Run, pos func(ssa.Instruction) string) {
 			}
 		}
 	}
+}
+
+// isPkgInit: the synthetic package initializer or a declared `func init()` (go/ssa names them init#1, init#2, ...):
+// code that runs once, before any exported function can be called.
+func isPkgInit(fn *ssa.Function) bool {
+	if fn == nil {
+		return false
+	}
+	if fn.Synthetic == "package initializer" {
+		return true
+	}
+	return fn.Parent() == nil && fn.Signature.Recv() == nil && fn.Signature.Params().Len() == 0 && fn.Signature.Results().Len() == 0 && strings.HasPrefix(fn.Name(), "init#")
 }
